@@ -146,7 +146,13 @@ def other_families(chk, rng, thorough):
     # several instances alive at once (built first, validated afterwards): each is still the function its declared optimum describes
     live = [('GKLS', dict(dim=d, k=k)) for d, k in ((3, rng.randint(1, 100)), (2, rng.randint(1, 100)), (3, rng.randint(1, 100)), (5, rng.randint(1, 100)), (2, rng.randint(1, 100)))]
     live += [('Grishagin', dict(k=k)) for k in rng.sample(range(1, 101), 3)] + [('Hill', dict(k=7)), ('Shekel', dict(k=11)), ('Hill', dict(k=8))]
+    live += [('Shekel4', dict(k=1)), ('Shekel4', dict(k=2)), ('Shekel4', dict(k=3))]
     objs = [(fam, kw, B.problem(fam, **kw)) for fam, kw in live]
+    for fam, kw, pb in reversed(objs):      # warm every instance once (the later-built ones first), then validate in construction order
+        try:
+            B.calc(pb, [float(t) for t in pb.knownOptimum[0].point.floatVariables])
+        except Exception:  # noqa
+            pass
     for fam, kw, pb in objs:
         ko = pb.knownOptimum[0]
         p = [float(t) for t in ko.point.floatVariables]; v = float(ko.functionValues[0].value)
